@@ -1,4 +1,6 @@
 import CffiVerif.Model.Mem
+import CffiVerif.Model.IndexBase
+import CffiVerif.Generated.IndexExprs
 /-
 Model of cdata indexing, slicing and pointer arithmetic
 (src/c/_cffi_backend.c: `_cdata_get_indexed_ptr`, `_cdata_getslicearg`,
@@ -23,31 +25,16 @@ addressof/offsetof; several indexes in one addressof/offsetof call.
 namespace CffiVerif.Index
 open CffiVerif.Mem
 
-inductive Err
-  | IndexError | TypeError | OverflowError | ValueError | RuntimeError | Fault
-deriving Repr, DecidableEq
-
-/-- A Python object used as an index, slice bound or addend. -/
-inductive PyArg
-  | int (i : Int)     -- an `int` (or anything with `__index__`)
-  | none              -- `None`
-  | other             -- anything else (float, str …)
-deriving Repr, DecidableEq
-
-def ssizeMin : Int := -9223372036854775808
-def ssizeMax : Int := 9223372036854775807
-def two64 : Int := 18446744073709551616
-
-def fitsSsize (i : Int) : Prop := ssizeMin ≤ i ∧ i ≤ ssizeMax
-instance (i : Int) : Decidable (fitsSsize i) := by unfold fitsSsize; exact inferInstance
-
-/-- `char *` / `size_t` arithmetic: modulo 2^64. -/
-def wrapU (x : Int) : Nat := (x % two64).toNat
-
-/-- `Py_ssize_t` arithmetic: two's complement wrap-around. -/
-def wrapS (x : Int) : Int :=
-  let r := x % two64
-  if r > ssizeMax then r - two64 else r
+/- Every condition and every arithmetic expression below comes from
+Generated/IndexExprs.lean, re-extracted from the C source on every check run
+(translate/c16_exprs.py); only the control structure is written by hand. -/
+namespace G
+export CffiVerif.Generated.IndexExprs (mulWraparound ownPtrIndexRejected ptrIsNull arrayIndexNegative
+  arrayIndexTooLarge itemAddr sliceStartAfterStop sliceStartNegative sliceStopTooLarge sliceBound0 sliceBound1
+  sliceAddr sliceLength assSliceAddr assSliceLength assSliceMoveBytes assSliceBytesLenMismatch addScaled
+  addItemSizeUnknown addVoidItemSize addAddr subItemSizeNotPositive subByteDiff subNeedsDivision subNotMultiple
+  subItemDiff offsetofItemSizeUnknown offsetofOffset offsetofOverflow)
+end G
 
 inductive Kind
   | array (n : Nat)   -- `T[n]` / `T[]` of length n (owning, slice view, from_buffer …)
@@ -94,13 +81,15 @@ def indexedPtr (cd : CData) (key : PyArg) : Except Err Nat :=
     if ¬ fitsSsize i then .error .IndexError      -- PyNumber_AsSsize_t(key, PyExc_IndexError)
     else match cd.kind with
       | .ownptr =>
-        if i ≠ 0 then .error .IndexError else .ok (wrapU (cd.addr + i * cd.isize))
+        if G.ownPtrIndexRejected i then .error .IndexError
+        else .ok (wrapU (G.itemAddr cd.addr i cd.isize))
       | .ptr =>
-        if cd.addr = 0 then .error .RuntimeError else .ok (wrapU (cd.addr + i * cd.isize))
+        if G.ptrIsNull cd.addr then .error .RuntimeError
+        else .ok (wrapU (G.itemAddr cd.addr i cd.isize))
       | .array n =>
-        if i < 0 then .error .IndexError
-        else if i ≥ n then .error .IndexError
-        else .ok (wrapU (cd.addr + i * cd.isize))
+        if G.arrayIndexNegative i then .error .IndexError
+        else if G.arrayIndexTooLarge i n then .error .IndexError
+        else .ok (wrapU (G.itemAddr cd.addr i cd.isize))
       | .other => .error .TypeError
 
 /-- `cdata_subscript` with an integer key: the bytes of the item. -/
@@ -144,21 +133,22 @@ def sliceArg (cd : CData) (start stop step : PyArg) : Except Err (Int × Int) :=
     | .error e => .error e
     | .ok e =>
       if step ≠ .none then .error .IndexError
-      else if s > e then .error .IndexError
+      else if G.sliceStartAfterStop s e then .error .IndexError
       else match cd.kind with
         | .array n =>
-          if s < 0 then .error .IndexError
-          else if e > n then .error .IndexError
-          else .ok (s, e - s)
-        | .ptr => .ok (s, e - s)
-        | .ownptr => .ok (s, e - s)
+          if G.sliceStartNegative s then .error .IndexError
+          else if G.sliceStopTooLarge e n then .error .IndexError
+          else .ok (G.sliceBound0 s e, G.sliceBound1 s e)
+        | .ptr => .ok (G.sliceBound0 s e, G.sliceBound1 s e)
+        | .ownptr => .ok (G.sliceBound0 s e, G.sliceBound1 s e)
         | .other => .error .TypeError
 
 /-- `cdata_slice`: the view `cd[start:stop]`. -/
 def slice (cd : CData) (start stop step : PyArg) : Except Err CData :=
   match sliceArg cd start stop step with
   | .error e => .error e
-  | .ok (s, l) => .ok { cd with kind := .array l.toNat, addr := wrapU (cd.addr + cd.isize * s) }
+  | .ok (s, l) =>
+    .ok { cd with kind := .array (G.sliceLength l).toNat, addr := wrapU (G.sliceAddr cd.addr cd.isize s) }
 
 /-- Right-hand side of a slice assignment. -/
 inductive Rhs
@@ -206,17 +196,17 @@ def assSlice (m : Memory) (cd : CData) (start stop step : PyArg) (rhs : Rhs) :
   match sliceArg cd start stop step with
   | .error e => (m, .error e)
   | .ok (s, l) =>
-    let addr := wrapU (cd.addr + cd.isize * s)
-    let len := l.toNat
+    let addr := wrapU (G.assSliceAddr cd.addr cd.isize s)
+    let len := (G.assSliceLength l).toNat
     let isz := cd.isize.toNat
     match rhs with
     | .del => (m, .error .TypeError)
     | .carray src k =>
-      if k = len then m.move addr src (isz * len)      -- fast path: memmove
+      if k = len then m.move addr src (G.assSliceMoveBytes isz len).toNat      -- fast path: memmove
       else assLoopLazy m addr src isz len k
     | .bytes bs vs =>
       if cd.isChar ∧ isz = 1 then
-        if bs.length ≠ len then (m, .error .ValueError)
+        if G.assSliceBytesLenMismatch bs.length len then (m, .error .ValueError)
         else match m.store addr bs with                  -- memcpy
           | .error e => (m, .error e)
           | .ok m' => (m', .ok ())
@@ -232,14 +222,15 @@ def addInt (cd : CData) (w : PyArg) (sign : Int) : Except Err CData :=
   | .int i0 =>
     if ¬ fitsSsize i0 then .error .OverflowError    -- PyNumber_AsSsize_t(w, PyExc_OverflowError)
     else
-      let i := wrapS (i0 * sign)
+      let i := wrapS (G.addScaled i0 sign)
       match cd.kind with
       | .other => .error .TypeError
       | _ =>
-        if cd.isize < 0 then
-          if cd.voidp then .ok { cd with kind := .ptr, addr := wrapU (cd.addr + i * 1) }
+        if G.addItemSizeUnknown cd.isize then
+          if cd.voidp then
+            .ok { cd with kind := .ptr, addr := wrapU (G.addAddr cd.addr i (G.addVoidItemSize cd.isize)) }
           else .error .TypeError
-        else .ok { cd with kind := .ptr, addr := wrapU (cd.addr + i * cd.isize) }
+        else .ok { cd with kind := .ptr, addr := wrapU (G.addAddr cd.addr i cd.isize) }
 
 def Kind.isPtr : Kind → Bool
   | .ptr => true
@@ -253,12 +244,12 @@ def Kind.isPtrOrArray : Kind → Bool
 /-- `cdata_sub` with two cdata operands `v - w`. -/
 def ptrSub (v w : CData) : Except Err Int :=
   if ¬ (v.kind.isPtr = true ∧ w.kind.isPtrOrArray = true ∧ v.tid = w.tid) then .error .TypeError
-  else if v.isize ≤ 0 ∧ v.voidp = false then .error .TypeError
+  else if G.subItemSizeNotPositive v.isize ∧ v.voidp = false then .error .TypeError
   else
-    let diff := wrapS ((v.addr : Int) - (w.addr : Int))
-    if v.isize > 1 then
-      if diff.tmod v.isize ≠ 0 then .error .ValueError
-      else .ok (diff.tdiv v.isize)
+    let diff := wrapS (G.subByteDiff v.addr w.addr)
+    if G.subNeedsDivision v.isize then
+      if G.subNotMultiple diff v.isize then .error .ValueError
+      else .ok (G.subItemDiff diff v.isize)
     else .ok diff
 
 /-- Integer branch of `direct_typeoffsetof`: byte offset of item `idx`. -/
@@ -268,11 +259,11 @@ def typeOffsetof (arrayOrPtr : Bool) (isize : Int) (idx : PyArg) : Except Err In
   | .other => .error .TypeError
   | .int i =>
     if ¬ fitsSsize i then .error .TypeError       -- "field name or array index expected"
-    else if arrayOrPtr = false ∨ isize < 0 then .error .TypeError
+    else if arrayOrPtr = false ∨ G.offsetofItemSizeUnknown isize then .error .TypeError
     else
-      let off := wrapS (i * isize)                -- MUL_WRAPAROUND
+      let off := G.offsetofOffset i isize         -- MUL_WRAPAROUND
       -- the overflow test divides by the item size; it is skipped for zero-sized items
-      if isize ≠ 0 ∧ off.tdiv isize ≠ i then .error .OverflowError else .ok off
+      if G.offsetofOverflow off i isize then .error .OverflowError else .ok off
 
 /-- `ffi.offsetof("T[]", i)` / `ffi.offsetof("T *", i)`. -/
 def offsetof (isize : Int) (idx : PyArg) : Except Err Int := typeOffsetof true isize idx
